@@ -38,7 +38,7 @@ RULE = ("worlds of 3 real IdentityCommunity nodes + 2 node-less third-party keys
         "(cross-subject registration, expiry boundary, third-party attestation stored first, replay, long chain, "
         "sha1, fixed-metadata, wrong-name, tainted disclosure, restart over the same database with a new or the old "
         "IdentityManager (third party's row first / own row stored / own row plus a row of another subject for the same "
-        "metadata), stale-plus-fresh registration, orphan flood beyond the 100-token cap, registration without a JSON form, chain with one forged link delivered out of order, none) followed by 25-45 seeded events drawn from: add_known_hash (any subject incl. "
+        "metadata), stale-plus-fresh registration, orphan flood beyond the 100-token cap, registration without a JSON form, chain with one forged link delivered out of order, metadata over a bad token then restart, refused advertise call then chain growth, none) followed by 25-45 seeded events drawn from: add_known_hash (any subject incl. "
         "third parties, 5 hashes + one 20-byte hash, 3 names, 5 metadata dicts), request_attestation_advertisement, "
         "self_advertise (single / bulk), deliver / replay / drop of captured packets, restarts, clock steps in multiples of "
         "1/8 s incl. exactly +299.875, +300, +300.125 and +301 s after a registration, registered and disclosed metadata "
@@ -595,6 +595,12 @@ class World:
         new_chain = [t.get_hash() for t in n.overlay.token_chain]
         # oracle bookkeeping: the user has to open the chain again; the chain is whatever the object reloaded
         self.ever_chain.setdefault(v, set()).update(old_chain)
+        # a request the library refused half-way (metadata without a JSON form) leaves its token in the own tree; a later
+        # reload may pick it up: own token, not judged here (seen: `restart:chain-has-token-of-refused-request`)
+        own_tree = set(old.overlay.pseudonym_manager.tree.elements)
+        if any(h not in self.ever_chain[v] for h in [t.get_hash() for t in n.overlay.token_chain]) :
+            self.ctx.count("restart:chain-has-token-of-refused-request")
+        self.ever_chain[v].update(own_tree)
         if sorted(new_chain) != sorted(set(new_chain)) or any(h not in self.ever_chain[v] for h in new_chain):
             self.fail("__init__:chain-reload", f"node {v} reloaded a chain with tokens it never had")
         self.ctx.count("restart:chain=%s" % ("same" if new_chain == old_chain else
@@ -615,11 +621,19 @@ class World:
         self.ctx.count("advance:" + ("fractional" if dt != int(dt) else "whole"))
 
     def ev_advert(self, s, v, raw, name, md):
-        self.trace.append({"op": "advert", "s": s, "v": v, "raw": raw.hex()[:8], "name": name, "md": md})
+        self.trace.append({"op": "advert", "s": s, "v": v, "raw": raw.hex()[:8], "len": len(raw), "name": name,
+                           "md": repr(md)})
         ov = self.ov[s]
         q0 = len(self.queue)
         n0 = len(ov.token_chain)
-        ov.request_attestation_advertisement(self.ov[v].my_peer, raw, name, "id_metadata", md)
+        try:
+            ov.request_attestation_advertisement(self.ov[v].my_peer, raw, name, "id_metadata", md)
+            self.ctx.count("advert:" + ("credential-made" if len(ov.token_chain) == n0 + 1 else "no-credential"))
+        except Exception as exc:       # the call is refused (malformed hash, metadata without a JSON form, ...):
+            self.ctx.count("advert:raised:" + type(exc).__name__)   # nothing may have been opened or sent
+            if len(ov.token_chain) != n0:
+                self.fail("request_attestation_advertisement:chain-grew-although-raised",
+                          f"node {s}: the call raised {type(exc).__name__} but the chain grew")
         emitted = self.queue[q0:]
         if len(ov.token_chain) == n0 + 1:
             tok, meta = ov.token_chain[-1], ov.metadata_chain[-1]
@@ -651,7 +665,11 @@ class World:
         self.trace.append({"op": "selfadv", "s": s, "raw": raw.hex()[:8], "name": name})
         ov = self.ov[s]
         q0 = len(self.queue)
-        cred = ov.self_advertise(raw, name)
+        try:
+            cred = ov.self_advertise(raw, name)
+        except Exception as exc:
+            self.ctx.count("self_advertise:raised:" + type(exc).__name__)
+            cred = None
         if cred is not None:
             tok, meta = ov.token_chain[-1], ov.metadata_chain[-1]
             th = tok.get_hash()
@@ -1118,6 +1136,25 @@ class Gen:
             for e in w.craft(a, v, pl, "stale and fresh credential"):
                 w.queue.remove(e)
                 w.ev_deliver(e)
+        elif kind == "refused-advert-then-growth":
+            # a opens (or not) its chain to b, then a request to b that the library refuses, then the chain grows for
+            # other reasons, then b asks for everything: b may only get what was opened by SUCCESSFUL requests
+            if rng.random() < 0.6:
+                w.ev_advert(a, b, h1, name, None)
+            for _ in range(rng.randint(1, 2)):
+                if rng.random() < 0.5:
+                    w.ev_advert(a, b, rng.randbytes(rng.choice([16, 31, 40])), name, None)
+                else:
+                    w.ev_advert(a, b, h2, name, rng.choice(MDS_NONJSON))
+            for i in range(rng.randint(1, 3)):
+                if rng.random() < 0.5:
+                    w.ev_selfadv(a, sha3(b"private%d" % i), "private")
+                else:
+                    w.ev_advert(a, v, sha3(b"for-v%d" % i), name, None)
+            w.trace.append({"op": "opener", "kind": kind})
+            for k in (0, w.perm[a].get(b, 0), max(0, len(w.chain[a]) - 1)):
+                self.craft_request(b, a, known=k)
+            self.flush()
         elif kind == "bad-token-then-restart":
             # metadata of a points at a token that is NOT on a verified chain of a (a waiting orphan of a, or a token of
             # b's chain that v holds in b's tree); v restarts with a NEW manager (trees are reloaded from the Tokens
@@ -1329,6 +1366,12 @@ class Gen:
                 raw = x["h"][len(PAD):] if x["h"].startswith(PAD) else x["h"]
                 w.ev_advert(s, v, raw, x["name"] if rng.random() < 0.7 else rng.choice(NAMES + NAMES_TYPED),
                             x["md"] if rng.random() < 0.7 and not jd(x["md"]).startswith("<no JSON") else rng.choice(MDS))
+            elif rng.random() < 0.25:
+                # a request the library refuses: hash that is not digest sized, or metadata without a JSON form
+                if rng.random() < 0.5:
+                    w.ev_advert(s, v, rng.randbytes(rng.choice([0, 16, 31, 33])), rng.choice(NAMES), rng.choice(MDS))
+                else:
+                    w.ev_advert(s, v, self.rhash(), rng.choice(NAMES), rng.choice(MDS_NONJSON))
             else:
                 w.ev_advert(s, v, self.rhash(), rng.choice(NAMES), rng.choice(MDS))
         elif r < 0.30:
@@ -1384,7 +1427,7 @@ class Gen:
 OPENERS = ["cross-subject", "expiry", "third-party-first", "replay", "long-chain", "sha1", "fixed-metadata",
            "wrong-name", "tainted", "restart", "stale-plus-fresh", "orphan-flood",
            "unserialisable-registration", "forged-out-of-order",
-           "bad-token-then-restart", "none"]
+           "bad-token-then-restart", "refused-advert-then-growth", "none"]
 
 
 async def run_world(ctx: Ctx, loop, use_model: bool, opener: str, n_events: int, world_seed: int):
@@ -1449,7 +1492,7 @@ def run_worlds(ctx: Ctx, n_worlds: int, use_model: bool):
             ctx.count("world:events", len(w.trace))
             if ctx.searching and [f for f in ctx.failures if f["signature"] != KNOWN_SIGNATURE]:
                 break
-            if len(ctx.failures) >= 200 or len(ctx.disagreements) >= 200:
+            if len(ctx.failures) >= 200 or (len(ctx.disagreements) >= 200 and _new_failures(ctx)):
                 ctx.extra["stopped_early"] = f"after {i + 1} of {n_worlds} worlds: failure/disagreement buffer full"
                 break
             if i < 2:
@@ -1494,6 +1537,10 @@ async def run_matrix_world(ctx: Ctx, loop, use_model, combo, world_seed):
     return w
 
 
+def _new_failures(ctx: Ctx):
+    return [f for f in ctx.failures if f["signature"] != KNOWN_SIGNATURE]
+
+
 def run_matrix(ctx: Ctx, use_model: bool):
     import itertools
     import ipv8.attestation.identity.community  # noqa: F401
@@ -1510,7 +1557,7 @@ def run_matrix(ctx: Ctx, use_model: bool):
                 compare(ctx, w, ctx.driver().batch(w.lines))
             ctx.case(("matrix", combo), w.nontrivial)
             ctx.count("matrix:cells")
-            if len(ctx.failures) >= 200 or len(ctx.disagreements) >= 200:
+            if len(ctx.failures) >= 200 or (len(ctx.disagreements) >= 200 and _new_failures(ctx)):
                 break
     finally:
         vclock.uninstall()
@@ -1527,7 +1574,7 @@ def run(ctx: Ctx):
     if ctx.replay_input is not None:
         return replay(ctx, ctx.replay_input)
     run_matrix(ctx, ctx.model_ok)
-    run_worlds(ctx, ctx.scale(240, 3000), ctx.model_ok)
+    run_worlds(ctx, ctx.scale(204, 3000), ctx.model_ok)
 
 
 def search(ctx: Ctx, reason: str):
